@@ -95,6 +95,13 @@ def gen_tree(rng, depth, maxdepth):
         if not src.subcomponents:
             src.add_component(gen_tree(rng, depth + 2, maxdepth))
         c.add_component(twin)
+    if depth == 0 and rng.random() < 0.15:
+        # the same component OBJECT at two places of the tree (one alarm attached to two events, an event added twice)
+        nodes = [n for n in py_preorder(c) if n is not c]
+        if nodes:
+            obj = rng.choice(nodes)
+            host = rng.choice([n for n in py_preorder(c) if n is not obj and obj not in py_preorder(n)[0:0] and n not in py_preorder(obj)])
+            host.add_component(obj)
     return c
 
 
